@@ -121,6 +121,8 @@ class PathCtx(object):
         return r
 
     def feasible(self, c):
+        # "unknown" counts as feasible: exploring an infeasible path is sound (its obligations hold vacuously); a concretely false goal on such a
+        # path is re-examined with a generous budget in prove() before anything is reported
         return self._check(c, FEAS_TIMEOUT_MS) != z3.unsat
 
     def decide(self, c, label=None):
@@ -168,9 +170,17 @@ class PathCtx(object):
                             info=info, line=line)
             if not goal:
                 # a concretely false goal is a failure only if the path is feasible
-                if self._check(z3.BoolVal(True), PROVE_TIMEOUT_MS) == z3.unsat:
+                rr = self._check(z3.BoolVal(True), PROVE_TIMEOUT_MS)
+                if rr == z3.unknown:
+                    rr = self._check(z3.BoolVal(True), PROVE_TIMEOUT_MS * 4)
+                if rr == z3.unsat:
                     ob.status = 'discharged'
                     ob.solver = 'z3py(path-infeasible)'
+                    ob.model = None
+                elif rr == z3.unknown:
+                    # neither a proof nor a failing input: the path may well be infeasible - undecided, never a violation
+                    ob.status = 'unknown'
+                    ob.solver = 'z3py(path-feasibility-unknown)'
                     ob.model = None
                 else:
                     ob.model = self.model_inputs(self._model_now())
